@@ -12,7 +12,7 @@ PROPS = {"C16": dict(
           "other tree, random, root, bit flip, malformed}, proof from {right, flipped, shortened, surplus, other range, other size, "
           "empty, malformed}, unknown origin, extension line, malformed header; non-trivial = the checkpoint carries >= 1 genuine own "
           "cosignature and the request has exactly one defect, or a fully valid request with a mixed signer set; distinct = hash of "
-          "the request descriptor; also: witnesses with recorded heads; 'rootattack' profile offering a checkpoint root for a right-edge subtree, a shifted whole-tree-size range, the recorded head on top of an older checkpoint, or a prefix of the head; requests sent twice; one valid own cosignature next to a foreign/Ed25519 line under the other identity's name"),
+          "the request descriptor; also: witnesses with recorded heads; 'rootattack' profile offering a checkpoint root for a right-edge subtree, a shifted whole-tree-size range, the recorded head on top of an older checkpoint, or a prefix of the head; requests sent twice; one valid own cosignature next to a foreign/Ed25519 line under the other identity's name; malformed lines under an own cosigner name; accepted cosignature lines transplanted onto a forged checkpoint (invented root, whole tree as subtree)"),
     assumptions=["vfref Merkle tree is correct", "SHA-256 collision resistance (the right subtree consistency proof is unique)",
                  "filippo.io/mldsa verification is correct"],
     technique="stateless property test with an independent subtree-hash oracle and signature verification",
